@@ -1,5 +1,5 @@
 (** Props/C04.v — run/skip/swallow decide execution per iteration; in-arguments are step-scoped. *)
-From PV Require Import Engine EngineProofs.
+From PV Require Import Engine EngineProofs Leaves GenProofs.
 Open Scope string_scope.
 Notation RG := (list val -> option string -> option string -> st -> R).
 Notation RP := (string -> option (list string) -> option (list val) -> option string -> option string -> st -> R).
@@ -73,6 +73,18 @@ Theorem C04_truth_rule_py : forall s src e r,
   fmt s (VPy src e) = Ok r -> as_bool s (VPy src e) = Ok (py_truth r).
 Proof. exact as_bool_py. Qed.
 Print Assumptions C04_truth_rule_py.
+
+(** Tie B: the string rule and the cast used above are the ones GENERATED from the current
+    source of pypyr/utils/types.py (cast_str_to_bool, cast_to_bool) *)
+Theorem C04_truth_rule_is_the_code : forall s x y,
+  fmt s (VStr x) = Ok (VStr y) -> as_bool s (VStr x) = Ok (gen_cast_str_to_bool y).
+Proof. exact as_bool_uses_generated_rule. Qed.
+Print Assumptions C04_truth_rule_is_the_code.
+
+Theorem C04_cast_to_bool_code : forall v,
+  (forall s, v <> VStr s) -> gen_cast_to_bool v = py_truth v.
+Proof. exact gen_cast_to_bool_other. Qed.
+Print Assumptions C04_cast_to_bool_code.
 
 (** in-arguments are merged into context before anything of the step evaluates ... *)
 Theorem C04_in_set_first : forall (rg : RG) (rp : RP) sp s,
